@@ -848,6 +848,9 @@ func opZInter(ks []string, agg int) step {
 		case 2:
 			c = c.Max()
 		}
+		// a command is a value: running it does not wear it out. It is run twice on the same data and the SECOND
+		// answer is the one judged (a first run that scribbles over the key list it shares with its copies shows here)
+		c.Run()
 		items, err := c.Run()
 		return rItems(items, err)
 	}}
@@ -861,6 +864,7 @@ func opZUnion(ks []string, agg int) step {
 		case 2:
 			c = c.Max()
 		}
+		c.Run()
 		items, err := c.Run()
 		return rItems(items, err)
 	}}
